@@ -248,13 +248,20 @@ structure GraphDomain (a : GraphArgs) : Prop where
 
 /-- `visualize_graph`: whenever it returns, the returned string — read back by the recogniser — is a well-formed
     document with root `svg` that contains
-    * one node shape per entry of `node_order`: one `circle`, or one sector `path` per label when the node is drawn as
-      a pie chart (more than one stored membership, non-zero sum);
-    * one edge `path` per displayed edge — stored entry of non-zero weight, or edge label on a pair without edge —
-      except arrows between two nodes that were given the same position (`rescale` keeps distinct positions distinct:
-      `finalPos_coincide`); `np.argsort` may return any permutation of the entries (`SortOk`);
-    * one `text` element per node `0 … n-1` in this order when names are given, the `i`-th showing the plain characters
-      of `names[i]`. -/
+    * one node shape per *entry of `node_order`* (default: every node once, see `one_shape_per_node`): one `circle`,
+      or one sector `path` per label when the node is drawn as a pie chart (more than one stored membership, non-zero
+      sum);
+    * one edge `path` per *displayed edge*, where a displayed edge is a **stored entry** of non-zero weight (any sign)
+      of the adjacency matrix — an undirected edge `{i, j}` stored as the two entries `(i, j)`, `(j, i)` gives two
+      paths — or an edge label on a pair without edge (each occurrence); except arrows between two nodes that were
+      given the same position.  The coincidence test is the model's: exact rational arithmetic on the rescaled
+      positions, which is the same as equality of the given positions (`rescale_keeps_positions_apart`).  The code
+      tests the float64 images: the two agree unless distinct positions are closer than the float64 resolution of
+      the rescaled layout (known finding F-C20-subresolution).  `np.argsort` may return any permutation (`SortOk`).
+      Which nodes a path joins is *not* part of this statement (it is checked on every run by the geometry spec
+      lines, not proved);
+    * one `text` element per node `0 … n-1` in this order when names are given, the `i`-th showing exactly `names[i]`
+      with every character XML 1.0 cannot represent shown as U+FFFD. -/
 theorem visualizeGraph_counts (ν : Nums) (a : GraphArgs) (d : Drawing) (hν : SafeNums ν) (hsort : SortOk ν)
     (ha : SafeGraphArgs a) (hd : GraphDomain a) (h : visualizeGraph ν a = .ok d) :
     docMeets (render d.svg) (expectedGraph a) = true :=
@@ -266,8 +273,12 @@ example : GraphDomain exampleGraph :=
    Or.inl (by decide), by decide,
    by intro e he; simp [exampleGraph] at he; rcases he with h | h | h <;> subst h <;> decide⟩
 
-/-- The only decision the drawing code takes on numbers: on a canvas with a non-zero dimension and a non-zero scale,
-    two nodes are drawn at the same place iff they were given the same position. -/
+/-- The only decision the drawing code takes on numbers, in exact arithmetic: on a canvas with a non-zero dimension
+    and a non-zero scale, the rescaled positions of two nodes are equal iff they were given the same position.
+    (This is a statement about the rational model of `rescale`. In float64 the images of two distinct positions can
+    collide when they are closer than the resolution of the rescaled layout — e.g. `(0,0)` and `(2^-60, 0)` on a
+    layout of span 1 —; the tie to the code assumes they do not, and the harness records the cases where they do as
+    F-C20-subresolution.) -/
 theorem rescale_keeps_positions_apart (a : GraphArgs) (pos : List (Rat × Rat)) (h : finalPos a = .ok pos)
     (hnd : truthy a.width = true ∨ truthy a.height = true) (hs : a.lay.scale ≠ 0)
     (i j : Nat) (hi : i < a.pos.length) (hj : j < a.pos.length) :
@@ -288,6 +299,53 @@ example : (match visualizeGraph νhash signedGraph with
     | .ok d => (observed d.svg).edgePaths
     | .error _ => 0) = 2 := by decide +kernel
 
+/-- "one node shape per node": with the default `node_order` (or any permutation of the nodes) the expected circles
+    and pie charts together are exactly the `n` nodes.  (With an arbitrary `node_order` — a subset, repeats — the code
+    draws one shape per *entry*, which is what `visualizeGraph_counts` states.) -/
+theorem one_shape_per_node (a : GraphArgs)
+    (h : a.nodeOrder = none ∨ ∃ o, a.nodeOrder = some o ∧ o.Perm (List.range (specN a))) :
+    (expectedGraph a).circles + ((List.range (specN a)).filter (isPie a.probs)).length = specN a ∧
+    (expectedGraph a).sectors = ((List.range (specN a)).filter (isPie a.probs)).length * ncolsOf a.probs := by
+  have hperm : (specOrder a).Perm (List.range (specN a)) := by
+    unfold specOrder
+    rcases h with h | ⟨o, ho, hp⟩
+    · rw [h]; exact List.Perm.refl _
+    · rw [ho]; exact hp
+  have h1 := (hperm.filter (fun i => !isPie a.probs i)).length_eq
+  have h2 := (hperm.filter (fun i => isPie a.probs i)).length_eq
+  have hsplit : ∀ l : List Nat, (l.filter fun i => !isPie a.probs i).length + (l.filter (isPie a.probs)).length
+      = l.length := by
+    intro l
+    induction l with
+    | nil => rfl
+    | cons x xs ih =>
+      by_cases hx : isPie a.probs x = true
+      · simp [List.filter_cons, hx]; omega
+      · simp [List.filter_cons, hx]; omega
+  refine ⟨?_, ?_⟩
+  · show ((specOrder a).filter fun i => !isPie a.probs i).length + _ = _
+    rw [h1]
+    simpa using hsplit (List.range (specN a))
+  · show ((specOrder a).filter fun i => isPie a.probs i).length * _ = _
+    rw [h2]
+
+example : exampleGraph.nodeOrder = none ∨
+    ∃ o, exampleGraph.nodeOrder = some o ∧ o.Perm (List.range (specN exampleGraph)) := Or.inl rfl
+
+/-- Every stored entry is drawn when the graph is drawn without arrows (`directed=False`, or a symmetric adjacency with
+    `directed=None`): the number of edge paths is the number of stored non-zero entries — twice the number of
+    undirected edges plus the loops for a symmetric adjacency — plus one per edge label on a pair without edge. -/
+theorem undirected_every_entry_drawn (a : GraphArgs) (h : specDirected a = false) :
+    (expectedGraph a).edgePaths =
+      if a.displayEdges then
+        (specEs a).length + (a.edgeLabels.filter fun l => entryAt (specEs a) l.1.toNat l.2.1.toNat = 0).length
+      else 0 := by
+  have hs : ∀ i j, shownSpec a i j = true := by intro i j; simp [shownSpec, h]
+  unfold expectedGraph
+  simp only [hs, Bool.and_true, List.filter_true]
+
+example : specDirected signedGraph = false := by decide
+
 /-- the inputs of `visualize_bigraph` the count statement is about -/
 structure BigraphDomain (a : BigraphArgs) : Prop where
   probsRow : ProbsOk a.probsRow
@@ -295,8 +353,9 @@ structure BigraphDomain (a : BigraphArgs) : Prop where
 
 /-- `visualize_bigraph`: whenever it returns, the returned string — read back by the recogniser — is a well-formed
     document with root `svg` that contains one node shape per row and per column (circle, or one sector per label for
-    a pie chart), one edge `path` per stored entry of non-zero weight and per edge label on a pair without edge, and one
-    `text` element per row name then per column name, each showing the plain characters of its name. -/
+    a pie chart), one edge `path` per stored entry of non-zero weight (any sign) and per edge label on a pair without
+    edge, and one `text` element per row name then per column name, each showing exactly its name (characters XML 1.0
+    cannot represent shown as U+FFFD). Which nodes a path joins is checked by the geometry spec lines, not proved. -/
 theorem visualizeBigraph_counts (ν : Nums) (a : BigraphArgs) (d : Drawing) (hν : SafeNums ν) (hsort : SortOk ν)
     (ha : SafeBigraphArgs a) (hd : BigraphDomain a) (h : visualizeBigraph ν a = .ok d) :
     docMeets (render d.svg) (expectedBigraph a) = true :=
@@ -314,7 +373,10 @@ example : BigraphDomain exampleBigraph :=
 /-! ## ★ `file_same` : the string written is the string returned -/
 
 /-- Writing a lexically sound document never fails (`UnicodeEncodeError` cannot occur: every character is an XML
-    character), and the bytes put on disk, decoded as UTF-8 by a strict decoder, are the returned string. -/
+    character), and the bytes put on disk, decoded as UTF-8 by a strict decoder, are the returned string.
+    (`writeFile` *defines* the file as the UTF-8 encoding of the string, as `open(…, 'w', encoding='utf-8')` does on
+    Linux; the content of the theorem is that this encoding exists and round-trips. That the real file has these bytes
+    — no newline translation, the path `filename + '.svg'` — is checked by the `spec_file` lines, not proved.) -/
 theorem file_same (f : PyStr) (doc : List Piece) (d : Drawing) (hlex : piecesLexOk doc = true)
     (h : writeFile (some f) doc = .ok d) :
     ∃ bytes, d.file = some (f ++ py!".svg", bytes) ∧ utf8Decode bytes = some (render d.svg) :=
@@ -334,6 +396,11 @@ theorem visualizeGraph_file_same (ν : Nums) (a : GraphArgs) (d : Drawing) (f : 
   obtain ⟨doc, hlex, hw⟩ := visualizeGraph_struct ν a d hν ha.nodeColor ha.edgeColor ha.labelColors h
   rw [hf] at hw
   exact writeFile_file hlex hw
+
+/-- the example graph written to `f.svg`: the function returns and reports that path -/
+example : (match visualizeGraph νhash { exampleGraph with filename := some py!"f" } with
+    | .ok d => d.file.map (·.1)
+    | .error _ => none) = some py!"f.svg" := by decide +kernel
 
 /-- `visualize_bigraph(…, filename=f)`: the file holds the UTF-8 bytes of the returned string. -/
 theorem visualizeBigraph_file_same (ν : Nums) (a : BigraphArgs) (d : Drawing) (f : PyStr) (hν : SafeNums ν)
